@@ -7,6 +7,7 @@ import (
 	"math/big"
 	"testing"
 
+	"github.com/crate-crypto/go-ipa/bandersnatch/fr"
 	"github.com/crate-crypto/go-ipa/banderwagon"
 	"github.com/crate-crypto/go-ipa/common"
 	"github.com/crate-crypto/go-ipa/ipa"
@@ -52,8 +53,14 @@ func evalC04(c c04Case, rec *hx.Rec) error {
 		panic(hx.Inconclusive{Msg: "reference evaluation inside the domain is not the evaluation itself"})
 	}
 	runNoise(c.Noise, 3, true)
-	var comm banderwagon.Element
-	if e := hx.Try(func() { comm = cfg.Commit(f) }); e != nil {
+	// the caller keeps its polynomials back to back in one array: f is the first row, a second polynomial follows it
+	rows := make([]fr.Element, 512)
+	copy(rows, f)
+	g := hx.FrSliceFromBig(polySpec{Kind: "ramp", Seed: c.Seed}.evals())
+	copy(rows[256:], g)
+	f = rows[:256]
+	var comm, commNext banderwagon.Element
+	if e := hx.Try(func() { comm = cfg.Commit(f); commNext = cfg.Commit(rows[256:]) }); e != nil {
 		return e
 	}
 	var proof ipa.IPAProof
@@ -73,6 +80,24 @@ func evalC04(c c04Case, rec *hx.Rec) error {
 	}
 	if ok, err := ref.IPAVerify(hx.G, ref.NewTranscript(c.Label), hx.FromImpl(&comm), rp, z, want); !ok || err != nil {
 		return fmt.Errorf("the reference verifier rejects go-ipa's proof at point %s for result p(point) (%v, %v)", c.Point, ok, err)
+	}
+	if c.Seed%4 == 0 { // the row stored right behind f, committed before f was opened, still opens correctly
+		var p2 ipa.IPAProof
+		var p2err error
+		var ok2 bool
+		w2 := ref.EvalAt(hx.FrSliceToBig(g), z)
+		if e := hx.Try(func() {
+			p2, p2err = ipa.CreateIPAProof(common.NewTranscript(c.Label), cfg, commNext, rows[256:], hx.FrFromBig(z))
+			if p2err == nil {
+				ok2, p2err = ipa.CheckIPAProof(common.NewTranscript(c.Label), cfg, commNext, p2, hx.FrFromBig(z), hx.FrFromBig(w2))
+			}
+		}); e != nil {
+			return e
+		}
+		if p2err != nil || !ok2 {
+			return fmt.Errorf("the polynomial stored behind the first one in the caller's array no longer opens to p(point) after the first one was opened at %s (ok=%v err=%v)", c.Point, ok2, p2err)
+		}
+		rec.Label("second_row_of_one_array")
 	}
 	zi := int(new(big.Int).Mod(z, big.NewInt(256)).Int64())
 	candidates := map[string]*big.Int{"correct": want}
